@@ -92,6 +92,20 @@ func (c *trCtx) expr(e ast.Expr) string {
 					if ok1 && ok2 && len(a) == 1 && len(b) == 1 {
 						return fmt.Sprintf("(replace_byte x%02x x%02x %s)", a[0], b[0], c.expr(x.Args[0]))
 					}
+				case "filepath.ToSlash":
+					return c.expr(x.Args[0]) // the identity where the separator is "/" (the only platform modelled)
+				case "filepath.Clean":
+					return "(clean " + c.expr(x.Args[0]) + ")"
+				case "filepath.Join":
+					// Join("/", e) = Clean("/" + "/" + e): the first non-empty element is "/", the elements are joined with "/"
+					if first, ok := strLit(x.Args[0]); ok && first == "/" && len(x.Args) == 2 {
+						return "(clean (x2f :: x2f :: " + c.expr(x.Args[1]) + "))"
+					}
+					return c.fail("filepath.Join of other than (\"/\", e)")
+				case "strings.TrimRight":
+					if cut, ok := strLit(x.Args[1]); ok && len(cut) == 1 && cut[0] < 128 {
+						return fmt.Sprintf("(trim_right (fun b => beq b x%02x) %s)", cut[0], c.expr(x.Args[0]))
+					}
 				case "strings.Map":
 					if id, ok := x.Args[0].(*ast.Ident); ok {
 						if pn, ok := c.preds[id.Name]; ok {
@@ -200,6 +214,11 @@ func (c *trCtx) cond(e ast.Expr) string {
 		if se, ok := x.Fun.(*ast.SelectorExpr); ok && se.Sel.Name == "HasPrefix" && len(x.Args) == 2 {
 			if p, ok := strLit(x.Args[1]); ok {
 				return "(has_prefix " + coqStr(p) + " " + c.expr(x.Args[0]) + ")"
+			}
+		}
+		if se, ok := x.Fun.(*ast.SelectorExpr); ok && se.Sel.Name == "HasSuffix" && len(x.Args) == 2 {
+			if p, ok := strLit(x.Args[1]); ok {
+				return "(has_suffix " + coqStr(p) + " " + c.expr(x.Args[0]) + ")"
 			}
 		}
 	}
@@ -692,4 +711,53 @@ func genBoolFns(repo, out string) {
 		fmt.Fprintf(&b, "(* func isRelevantForPackager(packager string, content *Content) bool *)\nDefinition src_is_relevant (v_packager : str) (c : content) : bool :=\n  %s.\nDefinition src_is_relevant_translated : bool := true.\n", body)
 	}
 	writeIfChanged(filepath.Join(out, "BoolFns.v"), b.String())
+}
+
+
+// ---- the path helpers of files/files.go, over the model's filepath.Clean ----
+func genPathFns(repo, out string) {
+	f := parseFile(filepath.Join(repo, "files/files.go"))
+	var b strings.Builder
+	b.WriteString("(* GENERATED from /repo (files/files.go) on every run by translators/strfn.go (genPathFns) - do not edit.\n   filepath.Clean is the model's [clean]; filepath.ToSlash is the identity; filepath.Join(\"/\", e) is Clean(\"//\" ++ e). *)\n")
+	b.WriteString("From Coq Require Import List String Bool.\nFrom Coq Require Import Strings.Byte.\nFrom NfpmV Require Import Lib.Bytes Model.Path Model.Content.\nImport ListNotations.\nOpen Scope list_scope.\nOpen Scope bool_scope.\n\n")
+	known := map[string]string{}
+	for _, t := range [][2]string{{"ToNixPath", "src_ToNixPath"}, {"AsRelativePath", "src_AsRelativePath"}, {"AsExplicitRelativePath", "src_AsExplicitRelativePath"},
+		{"NormalizeAbsoluteFilePath", "src_NormalizeAbsoluteFilePath"}, {"NormalizeAbsoluteDirPath", "src_NormalizeAbsoluteDirPath"}} {
+		c := &trCtx{known: known, eqSeqb: true}
+		var fd *ast.FuncDecl
+		for _, d := range f.Decls {
+			if x, ok := d.(*ast.FuncDecl); ok && x.Name.Name == t[0] && x.Recv == nil && x.Body != nil {
+				fd = x
+			}
+		}
+		var params []string
+		body := "[]"
+		if fd == nil {
+			c.fail("no function %s in files/files.go", t[0])
+		} else {
+			for _, fl := range fd.Type.Params.List {
+				id, ok := fl.Type.(*ast.Ident)
+				for _, n := range fl.Names {
+					if ok && id.Name == "string" {
+						params = append(params, "(v_"+n.Name+" : str)")
+					} else {
+						c.fail("parameter %s of a type outside the subset", n.Name)
+					}
+				}
+			}
+			if c.err == "" {
+				body = c.stmts(fd.Body.List, "", "  ")
+			}
+		}
+		if len(params) == 0 {
+			params = []string{"(v_path : str)"}
+		}
+		if c.err != "" {
+			fmt.Fprintf(&b, "(* %s: UNTRANSLATABLE - %s *)\nDefinition %s %s : str := [].\nDefinition %s_translated : bool := false.\n\n", t[0], c.err, t[1], strings.Join(params, " "), t[1])
+		} else {
+			fmt.Fprintf(&b, "(* func %s *)\nDefinition %s %s : str :=\n  %s.\nDefinition %s_translated : bool := true.\n\n", t[0], t[1], strings.Join(params, " "), body, t[1])
+		}
+		known[t[0]] = t[1]
+	}
+	writeIfChanged(filepath.Join(out, "PathFns.v"), b.String())
 }
